@@ -8,13 +8,74 @@ import (
 	"fmt"
 	"os"
 	"path/filepath"
+	"slices"
 	"strings"
 	"time"
 
 	"github.com/dlclark/regexp2"
+	"github.com/ollama/ollama/fs"
 	"github.com/ollama/ollama/model"
+	"github.com/ollama/ollama/model/models/gemma2"
+	"github.com/ollama/ollama/model/models/gemma3"
+	"github.com/ollama/ollama/model/models/llama"
+	"github.com/ollama/ollama/model/models/mistral3"
+	"github.com/ollama/ollama/model/models/mllama"
 	"verifharness/hx"
 )
+
+// fakeConfig is GGUF metadata (fs.Config) backed by a map, with ggml.KV's key rule: keys that do not start with
+// "tokenizer." or "general." are prefixed with the architecture.  A missing key or a value of another type yields the
+// caller's default, as ggml.KV does.
+type fakeConfig struct {
+	arch string
+	kv   map[string]any
+}
+
+func cfgGet[T any](c fakeConfig, key string, def []T) T {
+	if !strings.HasPrefix(key, "tokenizer.") && !strings.HasPrefix(key, "general.") {
+		key = c.arch + "." + key
+	}
+	if v, ok := c.kv[key]; ok {
+		if t, ok := v.(T); ok {
+			return t
+		}
+	}
+	var zero T
+	if len(def) > 0 {
+		return def[0]
+	}
+	return zero
+}
+
+func (c fakeConfig) Architecture() string                    { return c.arch }
+func (c fakeConfig) String(k string, d ...string) string      { return cfgGet(c, k, d) }
+func (c fakeConfig) Uint(k string, d ...uint32) uint32        { return cfgGet(c, k, d) }
+func (c fakeConfig) Float(k string, d ...float32) float32     { return cfgGet(c, k, d) }
+func (c fakeConfig) Bool(k string, d ...bool) bool            { return cfgGet(c, k, d) }
+func (c fakeConfig) Strings(k string, d ...[]string) []string { return cfgGet(c, k, d) }
+func (c fakeConfig) Uints(k string, d ...[]uint32) []uint32   { return cfgGet(c, k, d) }
+func (c fakeConfig) Floats(k string, d ...[]float32) []float32 {
+	return cfgGet(c, k, d)
+}
+
+var _ fs.Config = fakeConfig{}
+
+var constructors = map[string]func(fs.Config) (model.Model, error){
+	"llama": llama.New, "mllama": mllama.New, "mistral3": mistral3.New, "gemma2": gemma2.New, "gemma3": gemma3.New,
+}
+
+// bpeOf digs the embedded BytePairEncoding out of a constructed model (for the pre-tokeniser observation)
+func bpeOf(m model.Model) *model.BytePairEncoding {
+	switch x := m.(type) {
+	case *llama.Model:
+		return &x.BytePairEncoding
+	case *mllama.Model:
+		return &x.BytePairEncoding
+	case *mistral3.Model:
+		return &x.TextModel.BytePairEncoding
+	}
+	return nil
+}
 
 // the Unicode classes the pre-tokeniser patterns mention, as the REAL engine (same options as NewBytePairEncoding)
 // assigns them to single runes; order = bit index of the mask handed to the Coq model
@@ -180,6 +241,103 @@ func main() {
 			}
 			toks[c["name"].(string)] = t
 			return map[string]any{"ok": true, "n": len(v.Values), "specials": hx.HexList(v.SpecialVocabulary())}
+		case "ctor":
+			// the tokenizer as a MODEL CONSTRUCTOR builds it from GGUF metadata (fake fs.Config carrying the vocabulary
+			// of an already defined tokenizer + the metadata variant), then the round trip of each text
+			t := toks[c["vocab"].(string)]
+			if t == nil {
+				return map[string]any{"harness_error": "unknown vocab"}
+			}
+			arch := c["arch"].(string)
+			kv := map[string]any{
+				"general.architecture":         arch,
+				"tokenizer.ggml.tokens":        t.v.Values,
+				"tokenizer.ggml.token_type":    t.v.Types,
+				"tokenizer.ggml.scores":        t.v.Scores,
+				"tokenizer.ggml.merges":        t.v.Merges,
+				"tokenizer.ggml.bos_token_id":  uint32(t.v.BOS),
+				"tokenizer.ggml.eos_token_id":  uint32(t.v.EOS),
+				arch + ".vision.block_count":   uint32(1),
+				arch + ".block_count":          uint32(0),
+				arch + ".attention.head_count": uint32(1),
+			}
+			if meta, ok := c["meta"].(map[string]any); ok {
+				for k, v := range meta {
+					kv[k] = v
+				}
+			}
+			var m model.Model
+			var cerr error
+			r := hx.Guard(func() any {
+				m, cerr = constructors[arch](fakeConfig{arch: arch, kv: kv})
+				return nil
+			})
+			if r != nil {
+				return map[string]any{"ctor_panic": r}
+			}
+			if cerr != nil {
+				return map[string]any{"ctor_err": cerr.Error()}
+			}
+			tp, ok := m.(model.TextProcessor)
+			if !ok {
+				return map[string]any{"ctor_err": "constructed model is not a TextProcessor"}
+			}
+			var direct model.TextProcessor
+			if d, ok := c["direct"].(string); ok && toks[d] != nil {
+				if toks[d].kind == "bpe" {
+					direct = toks[d].bpe
+				} else {
+					direct = toks[d].spm
+				}
+			}
+			bp := bpeOf(m)
+			res := []map[string]any{}
+			for _, text := range hx.UnhexList(c["texts"]) {
+				st := hx.Guard(func() any {
+					st := map[string]any{}
+					ids, err := tp.Encode(text, false)
+					if err != nil {
+						st["enc_err"] = err.Error()
+						return st
+					}
+					inr := true
+					for _, id := range ids {
+						if id < 0 || int(id) >= t.n {
+							inr = false
+						}
+					}
+					st["ids_in_range"] = inr
+					dec, err := tp.Decode(ids)
+					if err != nil {
+						st["dec_err"] = err.Error()
+						return st
+					}
+					st["ok"] = dec == text
+					if dec != text {
+						st["dec"] = hx.Hex(dec)
+					}
+					if direct != nil {
+						dids, _ := direct.Encode(text, false)
+						same := len(dids) == len(ids)
+						for i := 0; same && i < len(ids); i++ {
+							same = ids[i] == dids[i]
+						}
+						st["same_as_direct"] = same
+						if !same {
+							st["ids"], st["direct_ids"] = ids, dids
+						}
+					}
+					if bp != nil {
+						ps := bp.VerifSplit(text)
+						if strings.Join(ps, "") != text || slices.Contains(ps, "") {
+							st["split"] = hx.HexList(ps)
+						}
+					}
+					return st
+				}).(map[string]any)
+				res = append(res, st)
+			}
+			return map[string]any{"res": res, "n": t.n}
 		case "seq":
 			// a sequence of Encode calls on ONE long-lived tokenizer object; every call is compared with the same call on
 			// a fresh tokenizer (no state may leak from one call into the next)
